@@ -252,3 +252,45 @@ func VH_C08_arc_bounds_Q() {
 	}
 	vAssert("C08.bounds.arc.tight", vhNear(b.X0, xlo) && vhNear(b.X1, xhi) && vhNear(b.Y0, ylo) && vhNear(b.Y1, yhi))
 }
+
+// C08-H6: the contract that VH_C08_arc_bounds_Q assumes of ellipseToCenter, checked on its own:
+// for an arc generated from its centre form (centre, radii, rotation, start and end parameter as
+// unit vectors, sweep direction; the large flag follows) the function recovers the centre and the
+// two angles.  Radii from 5 pairs, rotation from 5 unit vectors, 9 unit vectors for the end
+// parameters (all ordered pairs that are not opposite), two centres.  All concrete (the function is
+// square roots and arc cosines): an enumeration executed by the interpreter and natively, not a
+// solver verdict; it includes the chords that equal rx or 2 rx at rotation 0, where the function
+// has a shortcut.
+func VH_C08_ellipse_to_center() {
+	radii := [][2]float64{{1, 1}, {2, 1}, {5, 0.5}, {3, 2.5}, {10, 10}}
+	rr := radii[vChoose(0, len(radii)-1)]
+	rx, ry := rr[0], rr[1]
+	rots := [][2]float64{{1, 0}, {0.8, 0.6}, {0, 1}, {-0.6, 0.8}, {-0.96, 0.28}}
+	rot := rots[vChoose(0, len(rots)-1)]
+	cphi, sphi := rot[0], rot[1]
+	units := [][2]float64{{1, 0}, {0.8, 0.6}, {0, 1}, {-0.6, 0.8}, {-0.96, 0.28}, {-0.6, -0.8}, {5.0 / 13, -12.0 / 13}, {0.5, 0.8660254037844386}, {-0.5, 0.8660254037844386}}
+	i0 := vChoose(0, len(units)-1)
+	i1 := vChoose(0, len(units)-1)
+	if i0 == i1 {
+		return
+	}
+	c0, s0 := units[i0][0], units[i0][1]
+	c1, s1 := units[i1][0], units[i1][1]
+	cross := c0*s1 - s0*c1
+	if math.Abs(cross) < 1e-3 {
+		return // opposite parameters: either centre form is acceptable
+	}
+	sweep := vChoose(0, 1) == 1
+	large := (cross < 0) == sweep
+	ctr := []Point{{0, 0}, {3, -2}}[vChoose(0, 1)]
+	x0, y0 := ctr.X+rx*c0*cphi-ry*s0*sphi, ctr.Y+rx*c0*sphi+ry*s0*cphi
+	x1, y1 := ctr.X+rx*c1*cphi-ry*s1*sphi, ctr.Y+rx*c1*sphi+ry*s1*cphi
+	phi := math.Atan2(sphi, cphi)
+	cx, cy, t0, t1 := ellipseToCenter(x0, y0, rx, ry, phi, large, sweep, x1, y1)
+	vAssert("C08.ellipsetocenter.centre", math.Abs(cx-ctr.X) <= 1e-6 && math.Abs(cy-ctr.Y) <= 1e-6)
+	// the angles give back the end points and run in the sweep direction
+	a0x, a0y := cx+rx*math.Cos(t0)*cphi-ry*math.Sin(t0)*sphi, cy+rx*math.Cos(t0)*sphi+ry*math.Sin(t0)*cphi
+	a1x, a1y := cx+rx*math.Cos(t1)*cphi-ry*math.Sin(t1)*sphi, cy+rx*math.Cos(t1)*sphi+ry*math.Sin(t1)*cphi
+	vAssert("C08.ellipsetocenter.angles_give_the_end_points", math.Abs(a0x-x0) <= 1e-6 && math.Abs(a0y-y0) <= 1e-6 && math.Abs(a1x-x1) <= 1e-6 && math.Abs(a1y-y1) <= 1e-6)
+	vAssert("C08.ellipsetocenter.direction_and_extent", (t1 > t0) == sweep && (math.Abs(t1-t0) > math.Pi) == large)
+}
